@@ -2,6 +2,7 @@ package main
 
 import (
 	"fmt"
+	"go/types"
 	"strings"
 )
 
@@ -118,6 +119,20 @@ func (u *Univ) declaredSorts() map[string]bool {
 		}
 	}
 	return m
+}
+
+func basicByName(n string) types.Type {
+	switch n {
+	case "string":
+		return types.Typ[types.String]
+	case "uint64":
+		return types.Typ[types.Uint64]
+	case "int64":
+		return types.Typ[types.Int64]
+	case "bool":
+		return types.Typ[types.Bool]
+	}
+	return types.Typ[types.Invalid]
 }
 
 func sliceElem(sort string) (string, bool) {
@@ -455,8 +470,14 @@ func (env *Env) trCall(e *Expr, expect string) TV {
 			trFail("arr() of %s", x.S)
 		}
 		return TV{"(sl.arr " + x.T + ")", "(Array Int " + el + ")"}
-	case "sumOver":
-		trFail("sumOver not supported")
+	case "is_string", "is_uint64", "is_int64", "is_bool":
+		x := env.tr(e.Args[0], "Iface")
+		return TV{fmt.Sprintf("(= (iface.tag %s) %d)", x.T, u.BoxTag(basicByName(name[3:]))), "Bool"}
+	case "unbox_string", "unbox_uint64", "unbox_int64", "unbox_bool":
+		x := env.tr(e.Args[0], "Iface")
+		bt := basicByName(name[6:])
+		srt := u.SortOf(bt)
+		return TV{u.Unbox(srt, x.T), srt}
 	}
 	if sf, ok := env.specs[name]; ok {
 		_ = sf
